@@ -151,7 +151,7 @@ def main(ctx):
     for n in ("ref:accept", "ref:reject", "ref:either", "server_open", "server_rejected",
               "client_open", "client_rejected", "token_strings", "url_cases", "segment_execs",
               "interop_pairs", "limit_sequences", "limit_rejected", "limit_admitted",
-              "deferred_cases", "deferred_late_resolution"):
+              "deferred_cases", "deferred_late_resolution", "deferred_client_cases"):
         ctx.require(n)
 
 
@@ -766,6 +766,64 @@ def _job_deferred(a, env):
                 seen[clause] = seen.get(clause, 0) + 1
                 if seen[clause] <= 2:
                     viol.append(_viol(clause, "deferred-onconnect", label + ": " + detail, env, a, "deferred"))
+    # ---- client: onConnecting answers asynchronously; the server side of the connection talks
+    # (or disappears) before the client has even sent its request.  A response that arrives
+    # before the request cannot carry the digest of the client's key: never OPEN, nothing escapes.
+    premature = [
+        ("valid-looking-101", b"HTTP/1.1 101 Switching Protocols\r\nUpgrade: websocket\r\n"
+                              b"Connection: Upgrade\r\nSec-WebSocket-Accept: "
+                              b"s3pPLMBiTxaQ9kYGzzhZRbK+xOo=\r\n\r\n"),
+        ("partial-status-line", b"HTTP/1.1 101 Swit"),
+        ("http-400", b"HTTP/1.1 400 Bad Request\r\n\r\n"),
+        ("garbage", b"\x81\x05hello\r\n\r\n"),
+    ]
+    for label, octets in premature:
+        for order in itertools.permutations(["data", "resolve", "peer-drop", "timeout"], 3):
+            holder = {}
+
+            def connecting(proto, details, _h=holder):
+                _h["f"] = txaio.create_future()
+                return _h["f"]
+            ep = ws.Endpoint("client", {"openHandshakeTimeout": 2}, hooks={"connecting": connecting})
+            ep.conn.settle()
+            if "f" not in holder:
+                raise RuntimeError("harness: onConnecting was not called")
+            if ep.t.written:
+                raise RuntimeError("harness: the client wrote before onConnecting resolved")
+            for ev in order:
+                if ev == "data":
+                    if not ep.conn.lost and ep.t.reading():
+                        ep.feed(octets)
+                        ep.conn.settle()
+                elif ev == "resolve":
+                    try:
+                        txaio.resolve(holder["f"], None)
+                    except Exception as e:
+                        ep.conn.escapes.append(e)
+                    ep.conn.settle()
+                elif ev == "peer-drop":
+                    if not ep.conn.lost:
+                        ep.conn.peer_drop(False)
+                        ep.conn.settle()
+                elif ev == "timeout":
+                    ep.conn.advance(2.5)
+            evals += 1
+            stats["deferred_cases"] += 1
+            stats["deferred_client_cases"] = stats.get("deferred_client_cases", 0) + 1
+            stats["cases"] += 1
+            names = [e[0] for e in ep.rec]
+            lab = "client %s order=%s" % (label, list(order))
+            probs = []
+            if ep.conn.escapes:
+                probs.append(("escape", repr(ep.conn.escapes[0])[:160]))
+            if "onOpen" in names or ep.state() == 3:
+                probs.append(("opened-without-valid-response", "state=%s callbacks=%s" % (ep.state(), names)))
+            if ep.conn.lost and ep.state() != 0:
+                probs.append(("state-not-closed-after-drop", "state=%s lost=%s" % (ep.state(), ep.conn.lost)))
+            for clause, detail in probs:
+                seen["c:" + clause] = seen.get("c:" + clause, 0) + 1
+                if seen["c:" + clause] <= 2:
+                    viol.append(_viol(clause, "deferred-onconnecting", lab + ": " + detail, env, a, "deferred"))
     return {"evals": evals, "viol": viol, "stats": stats,
             "samples": [{"part": "deferred", "cases": stats["deferred_cases"]}]}
 
